@@ -55,7 +55,7 @@ Lemma step_top_silent s l s' :
   st_phase s' = PTop.
 Proof.
   intros PT H SL.
-  destruct l as [w|w|w| |k its| |w|c|w|w| | |w]; simpl in H; try tauto.
+  destruct l as [w|w|w| |k its| |w|c|w|w| | |w| ]; simpl in H; try tauto.
   - unfold do_create in H. rewrite PT in H. discriminate.
   - unfold do_consume in H. rewrite PT in H. discriminate.
   - unfold do_abandon in H. rewrite PT in H. discriminate.
@@ -71,6 +71,7 @@ Proof.
   - unfold do_arrive in H. destruct (st_gor s w); try discriminate. inversion H; subst s'. exact PT.
   - unfold do_end in H. rewrite PT in H. discriminate.
   - unfold do_exit in H. rewrite PT in H. discriminate.
+  - unfold do_cancel in H. destruct (st_cancelled s); [discriminate|]. inversion H; subst s'. exact PT.
 Qed.
 
 Lemma top_without_delivery : forall mid s s1,
@@ -157,7 +158,7 @@ Lemma step_counts s l s' :
   exits [l] + in_round_delivered (st_phase s') + length (deliveries []) <=
   in_round_delivered (st_phase s) + length (deliveries [l]).
 Proof.
-  intro H. destruct l as [w|w|w| |k its| |w|c|w|w| | |w]; simpl in H; simpl.
+  intro H. destruct l as [w|w|w| |k its| |w|c|w|w| | |w| ]; simpl in H; simpl.
   - unfold do_create in H. destruct (st_phase s) eqn:PH; try discriminate. destruct (lookup p w) as [it|]; [|discriminate].
     destruct (_ && _); [|discriminate].
     destruct (it_kind it); [| | |destruct (forallb _ _); [|discriminate]]; inversion H; subst s'; simpl; rewrite PH; simpl; lia.
@@ -202,6 +203,7 @@ Proof.
     destruct (forallb _ _); [|discriminate]. inversion H; subst s'. simpl. lia.
   - unfold do_exit in H. destruct (st_phase s) eqn:PH; try discriminate. destruct (v_fix fx); [|discriminate].
     destruct (st_gor s w); try discriminate; inversion H; subst s'; simpl; rewrite PH; simpl; lia.
+  - unfold do_cancel in H. destruct (st_cancelled s); [discriminate|]. inversion H; subst s'. simpl. lia.
 Qed.
 
 Lemma run_counts : forall tr s s',
